@@ -50,7 +50,7 @@ class CohGen:
             templated_class_as_type=(target == 'pybind'),   # D28 (matlab)
             nested_ns_class_enum=(target == 'pybind'),  # D25 (matlab): class-scoped enum in a class at ns depth >= 2
             global_serialize=False,                     # D20
-            ns_var_default=False,                       # D7 (pybind)
+            ns_var_default=True,                        # namespaced variable with initialiser (D7, repaired)
             nonconst_print=False,                       # D36 (pybind)
             tparam_in_vector=True,      # std::vector<T> with T a class template parameter (pybind universe)
             templated_class_enum_use=(target == 'pybind'),
